@@ -30,12 +30,12 @@ structure ByteWorld where
   ctxOf : Engine → Ctx
   oracle : Oracle
   /-- oracle subtrees of the items of a response (one list per item) -/
-  extrasOf : List ItemResult → List (List TItem)
+  extrasOf : List ItemResult → List (List TTLV.Item)
   /-- the result message of the error response the session builds for (header version, reason) -/
-  errText : Ver → Nat → Bytes
+  errText : Ver → Nat → TTLV.Bytes
 
 /-- `engine.build_error_response(version, reason, message)` -/
-def errorItem (hdr : Ver) (now : Int) (reason : Nat) (text : Bytes) : TItem :=
+def errorItem (hdr : Ver) (now : Int) (reason : Nat) (text : TTLV.Bytes) : TTLV.Item :=
   Envelope.buildErrorResponse ((hdr.1 : Int), (hdr.2 : Int)) now reason text
 
 /-- `len(response_data)` after `response.write(response_data, kmip_version)`; `none`: write raises.  (The time stamp
@@ -48,7 +48,7 @@ def encLen (b : ByteWorld) : Response (List ItemResult) → Ver → Option Nat
 def world (b : ByteWorld) : World := { ctxOf := b.ctxOf, oracle := b.oracle, encLen := encLen b }
 
 /-- the bytes handed to `sendall` for the message the session decided to send, written at time `now` under version `v` -/
-def sentBytes (b : ByteWorld) (now : Int) (v : Ver) : Response (List ItemResult) → Option Bytes
+def sentBytes (b : ByteWorld) (now : Int) (v : Ver) : Response (List ItemResult) → Option TTLV.Bytes
   | .normal rs => responseBytes (verNum v) now (b.extrasOf rs) (.results rs)
   | .error hdr rsn => some (encode (errorItem hdr now rsn (b.errText hdr rsn)))
 
@@ -66,7 +66,7 @@ theorem buildResponse_validB_now (v : Int × Int) (now : Int) (items : List Enve
     header_length, h1, h0]
 
 /-- the length of the answer does not depend on when it is written (for a clock that fits a Date-Time) -/
-theorem responseLen_now (ver : Nat) (now : Int) (extras : List (List TItem)) (rs : List ItemResult)
+theorem responseLen_now (ver : Nat) (now : Int) (extras : List (List TTLV.Item)) (rs : List ItemResult)
     (h : i64 now = true) : responseLen ver now extras (.results rs) = responseLen ver 0 extras (.results rs) := by
   simp only [responseLen, responseItem]
   cases itemsOf ver extras rs with
@@ -80,7 +80,7 @@ theorem verNum_verOf (req : Request) : verNum (verOf req) = req.version := by
 
 /-! ### the encoder contract of C12 -/
 
-theorem errorItem_length (hdr : Ver) (now : Int) (rsn : Nat) (text : Bytes) :
+theorem errorItem_length (hdr : Ver) (now : Int) (rsn : Nat) (text : TTLV.Bytes) :
     (encode (errorItem hdr now rsn text)).length = 136 + text.length + padLen text.length := by
   simp [errorItem, Envelope.buildErrorResponse, Envelope.buildResponse, Envelope.buildItem, Envelope.optItem, encode,
     encodeList, PVal.valBytes, be_length, header_length, padLen]
@@ -99,7 +99,7 @@ theorem encoderOk (b : ByteWorld) (cfg : SessionCfg)
 
 /-- the texts `_handle_message_loop` uses (session.py l.176-258), by reason; a request rejected by the engine as a
 whole carries `str(e)` instead (`rejected_bytes`) -/
-def sessionText (_hdr : Ver) (rsn : Nat) : Bytes :=
+def sessionText (_hdr : Ver) (rsn : Nat) : TTLV.Bytes :=
   bytesOf (if rsn = SRsn.responseTooLarge then "Response message length too large. See server logs for more information."
     else if rsn = SRsn.invalidMessage then "Error parsing request message. See server logs for more information."
     else if rsn = SRsn.authenticationNotSuccessful then
@@ -124,7 +124,7 @@ def maxFor (cfg : SessionCfg) (req : Request) : Int :=
   | none => (cfg.maxResponseSize : Int)
 
 theorem handle_normal (b : ByteWorld) (cfg : SessionCfg) (henc : C12.EncoderOk (serverEnv (world b)) cfg)
-    (peer : Option Cert) (e : Engine) (data : Bytes) (req : Request) (id : Identity)
+    (peer : Option Cert) (e : Engine) (data : TTLV.Bytes) (req : Request) (id : Identity)
     (hd : Decode.decodeFrame (world b).defaultVer data = .ok req) (hid : establish cfg.auth peer = .ok id)
     (rs : List ItemResult)
     (hres : (processRequest (b.ctxOf e) e id (withOracle b.oracle req)).2 = .results rs)
@@ -179,7 +179,7 @@ theorem handle_normal (b : ByteWorld) (cfg : SessionCfg) (henc : C12.EncoderOk (
             exact C12.fitting_response_sent _ cfg peer cert e e' data req id rs m (verOf req) n hc hp ha he hlen
               (by omega)
 
-/-- **Bytes in, bytes out.**  For every frame the decoder model accepts, from a client whose identity is
+/-- **TTLV.Bytes in, bytes out.**  For every frame the decoder model accepts, from a client whose identity is
 established, whose request the engine model answers item by item (`rs`), when that answer is in range
 (`responseInRange` at the time `now` of writing): the engine model ran exactly once on the decoded request, and the
 bytes the client receives are
@@ -189,11 +189,11 @@ bytes the client receives are
   * otherwise - EXACTLY then - the one-item Response Too Large error response under the request's version. -/
 theorem decoded_frame_bytes (b : ByteWorld) (cfg : SessionCfg)
     (ht : ∀ hdr rsn, (b.errText hdr rsn).length + 144 ≤ cfg.maxResponseSize)
-    (peer : Option Cert) (e : Engine) (data : Bytes) (req : Request) (id : Identity) (now : Int)
+    (peer : Option Cert) (e : Engine) (data : TTLV.Bytes) (req : Request) (id : Identity) (now : Int)
     (hd : Decode.decodeFrame (world b).defaultVer data = .ok req) (hid : establish cfg.auth peer = .ok id)
     (rs : List ItemResult)
     (hres : (processRequest (b.ctxOf e) e id (withOracle b.oracle req)).2 = .results rs)
-    (bs : Bytes) (hb : responseBytes req.version now (b.extrasOf rs) (.results rs) = some bs)
+    (bs : TTLV.Bytes) (hb : responseBytes req.version now (b.extrasOf rs) (.results rs) = some bs)
     (hr : responseInRange req.version now (b.extrasOf rs) (.results rs) = true) :
     (handleMessage (serverEnv (world b)) cfg peer e data).1.engineCall = some (req, id) ∧
     WF bs ∧
@@ -227,7 +227,7 @@ theorem decoded_frame_bytes (b : ByteWorld) (cfg : SessionCfg)
     simp only [sentBytes, verNum_verOf]; exact hb
 
 /-- the envelope of what is sent in the first case (the second is an error response: `C02.error_response_envelope`) -/
-theorem decoded_frame_envelope (b : ByteWorld) (req : Request) (now : Int) (rs : List ItemResult) (i : TItem)
+theorem decoded_frame_envelope (b : ByteWorld) (req : Request) (now : Int) (rs : List ItemResult) (i : TTLV.Item)
     (h : responseItem req.version now (b.extrasOf rs) (.results rs) = some i) :
     Envelope.faults (some (verPair req.version)) i = [] :=
   C02Encode.response_envelope_always _ _ _ _ i h
@@ -242,14 +242,14 @@ theorem rejected_bytes (b : ByteWorld) (req : Request) (now : Int) (reason : Nat
   simp only [sentBytes, responseBytes, responseItem, Option.map_some, errorItem, htext, verPair, verOf]
 
 /-- an undecodable frame never reaches the engine and changes nothing, in the byte-level world as in every world -/
-theorem undecodable_frame_is_noop (b : ByteWorld) (cfg : SessionCfg) (peer : Option Cert) (e : Engine) (data : Bytes)
+theorem undecodable_frame_is_noop (b : ByteWorld) (cfg : SessionCfg) (peer : Option Cert) (e : Engine) (data : TTLV.Bytes)
     (err : Decode.DErr) (h : Decode.decodeFrame (world b).defaultVer data = .error err) :
     (handleMessage (serverEnv (world b)) cfg peer e data).1.engineCall = none ∧
     (handleMessage (serverEnv (world b)) cfg peer e data).2 = e :=
   ServerProps.undecodable_frame_is_noop (world b) cfg peer e data err h
 
 /-- …and is answered with bytes that are well-formed TTLV following the envelope (any error response is) -/
-theorem error_response_wellformed (hdr : Ver) (now : Int) (rsn : Nat) (text : Bytes)
+theorem error_response_wellformed (hdr : Ver) (now : Int) (rsn : Nat) (text : TTLV.Bytes)
     (h : (errorItem hdr now rsn text).validB = true) :
     WF (encode (errorItem hdr now rsn text)) ∧
     Envelope.faults (some ((hdr.1 : Int), (hdr.2 : Int))) (errorItem hdr now rsn text) = [] :=
